@@ -162,6 +162,12 @@ pub trait CompiledRegex: Debug {
 
     /// Replace all matches with the replacement string.
     fn replace_all(&self, input: &str, replacement: &str) -> Result<String, String>;
+
+    /// The name of every capture group, by group number (index 0 is the whole match), `None`
+    /// for unnamed groups. Engines that do not report names have no named groups.
+    fn capture_names(&self) -> Vec<Option<String>> {
+        Vec::new()
+    }
 }
 
 /// Trait for providing regex compilation functionality.
